@@ -10,7 +10,7 @@ Decides one property on /repo's current working tree:
      sample inside the Coq kernel (vm_compute);
   4. classify, write evidence/<Cnn>.json, print VIOLATION / KNOWN-FINDING lines.
 """
-import argparse, importlib, json, os, random, sys, time
+import re, argparse, importlib, json, os, random, sys, time
 
 sys.path.insert(0, os.path.dirname(os.path.abspath(__file__)))
 import vlib
@@ -250,13 +250,24 @@ def main():
     if not props["exists"]:
         proof_broken.append("Props/%s.v missing" % pid)
     elif not props["ok"]:
-        import re
         mm = re.search(r'File "([^"]+)", line (\d+)', props["out"])
         where = "%s:%s" % (mm.group(1), mm.group(2)) if mm else "?"
         dep_fail = ["%s:%s" % f for f in failed]
         proof_broken.append("Props/%s.v does not compile (%s); failed dependencies: %s" % (pid, where, ", ".join(dep_fail) or "none"))
     elif props["axioms"] and not set(props["axioms"]) <= set(getattr(mod, "ALLOWED_AXIOMS", [])):
         proof_broken.append("unexpected axioms: " + ", ".join(props["axioms"]))
+
+    # thorough tier: re-check the property's compiled theorem files and everything they depend on with the
+    # independent checker coqchk, which also lists the axioms they rely on
+    if tier == "thorough" and props.get("exists") and props.get("ok") and not os.environ.get("VERIF_NO_COQCHK"):
+        mods = ["Dec.Props." + f[len("Props/"):-2] for f in props.get("files", [])]
+        rc_c, out_c, dt_c = vlib.sh(["coqchk", "-silent", "-o", "-Q", "theories", "Dec"] + mods, cwd=vlib.COQ, timeout=3600)
+        log.append(("coqchk", rc_c, dt_c, out_c[-2000:] if rc_c else ""))
+        ax = re.search(r"\* Axioms:\s*(.*?)\n\s*\n", out_c, flags=re.S)
+        axl = ax.group(1).strip() if ax else "?"
+        props["coqchk"] = dict(rc=rc_c, seconds=round(dt_c, 1), axioms=axl, modules=mods)
+        if rc_c != 0 or axl != "<none>":
+            proof_broken.append("coqchk: exit status %d, axioms %s" % (rc_c, axl[:300]))
 
     if proof_broken and not violations:
         # the failing-input search is the run above (corpus + boundary families);
@@ -353,7 +364,10 @@ def write_evidence(pid, tier, seed, mod, t0, stats, violations, props, rc):
             "hand-written Coq model of the Go code, tied by the correspondence check (Go driver vs extracted OCaml vs vm_compute)",
             "extraction: ExtrOcamlBasic + ExtrOcamlZBigInt, zarith 1.12, OCaml 4.13.1 (correspondence only)",
             "translators tools/go2coq, tools/asm2coq.py (constants, tables, assembly programs)",
-        ] + list(getattr(mod, "TRUSTED", [])),
+            "extraction directives of our own: Extract Constant Z.log2 / Z.pow (/ Z.sqrt for C05, C15) onto zarith",
+        ] + (["coqchk -silent -o on %s: exit %d, axioms %s (%.0f s)" % (" ".join(props["coqchk"]["modules"]), props["coqchk"]["rc"], props["coqchk"]["axioms"], props["coqchk"]["seconds"])]
+             if props and props.get("coqchk") else ["coqchk: run in the thorough tier; last whole-tree run in evidence/coqchk.txt"])
+          + list(getattr(mod, "TRUSTED", [])),
         theorems=theorems,
         examples=props.get("examples", []) if props else [],
         programs=len(cases),
